@@ -268,17 +268,30 @@ SRCTIE = {
                                                    "IndexBlockCursor.recursive_index_block.recursive", "IndexBlockCursor.recursive_index_block",
                                                    "IndexBlockCursor.move_on_first", "IndexBlockCursor.move_on_last", "IndexBlockCursor.move_on_next",
                                                    "IndexBlockCursor.move_on_prev", "IndexBlockCursor.move_on_key_greater_than_or_equal_to"]),
+    "Grenad.SrcTie.ReaderCursorTie": ("SrcReaderCursor,SrcReaderCursor2", ["Block", "Block.read_from", "CompressionType", "Block.new", "BlockCursor.new", "Block.into_cursor", "IndexBlockCursor", "IndexBlockCursor.new",
+      "IndexBlockCursor.reset", "IndexBlockCursor.move_on_first", "IndexBlockCursor.move_on_last", "IndexBlockCursor.move_on_next",
+      "IndexBlockCursor.move_on_prev", "IndexBlockCursor.move_on_key_greater_than_or_equal_to", "Reader", "Reader.compression_type", "Reader.index_block_offset",
+      "Reader.index_levels", "ReaderCursor", "ReaderCursor.current", "ReaderCursor.reset", "ReaderCursor.new", "ReaderCursor.next_block_from_index",
+      "ReaderCursor.prev_block_from_index", "ReaderCursor.move_on_first", "ReaderCursor.move_on_last", "ReaderCursor.move_on_next", "ReaderCursor.move_on_prev",
+      "ReaderCursor.move_on_key_greater_than_or_equal_to", "ReaderCursor.move_on_key_lower_than_or_equal_to", "ReaderCursor.move_on_key_equal_to"]),
+    "Grenad.SrcTie.ReaderCursorTieStep": ("SrcReaderCursor,SrcReaderCursor2", ["Block", "Block.read_from", "CompressionType", "Block.new", "BlockCursor.new", "Block.into_cursor", "IndexBlockCursor", "IndexBlockCursor.new",
+      "IndexBlockCursor.reset", "IndexBlockCursor.move_on_first", "IndexBlockCursor.move_on_last", "IndexBlockCursor.move_on_next",
+      "IndexBlockCursor.move_on_prev", "IndexBlockCursor.move_on_key_greater_than_or_equal_to", "Reader", "Reader.compression_type", "Reader.index_block_offset",
+      "Reader.index_levels", "ReaderCursor", "ReaderCursor.current", "ReaderCursor.reset", "ReaderCursor.new", "ReaderCursor.next_block_from_index",
+      "ReaderCursor.prev_block_from_index", "ReaderCursor.move_on_first", "ReaderCursor.move_on_last", "ReaderCursor.move_on_next", "ReaderCursor.move_on_prev",
+      "ReaderCursor.move_on_key_greater_than_or_equal_to", "ReaderCursor.move_on_key_lower_than_or_equal_to", "ReaderCursor.move_on_key_equal_to"]),
+    "Grenad.SrcTie.Compression": ("SrcCompression", ["CompressionType", "compress", "decompress"]),
     "Grenad.SrcTie.Sorter": ("SrcSorter", ["EntryBound", "EntryBoundAlignedBuffer", "EntryBoundAlignedBuffer.deref", "Entries", "Entries.clear",
                                            "Entries.remaining", "Entries.entry_size", "Entries.fits", "Entries.memory_usage",
                                            "Entries.estimated_entries_memory_usage", "Sorter", "Sorter.threshold_exceeded"]),
 }
 for _p, _mods in {"C14": ["Varint", "Block", "C14Src"], "C13": ["Meta", "C13Src"], "C10": ["Meta", "C10Src"],
-                  "C09": ["Meta", "BlockWriter", "Varint", "C13Src", "CountWrite", "WriterBlock", "WriterInsert", "WriterFinish", "WriterRun"], "C04": ["IterRange", "IterNext", "C04C05Src"],
+                  "C09": ["Meta", "BlockWriter", "Varint", "C13Src", "CountWrite", "WriterBlock", "WriterInsert", "WriterFinish", "WriterRun", "Compression"], "C04": ["IterRange", "IterNext", "C04C05Src"],
                   "C05": ["IterPrefix", "C05Src", "IterNext", "C04C05Src"], "C18": ["BlockWriter", "C18Src", "WriterBlock", "WriterInsert", "WriterRun"], "C15": ["BlockWriter", "WriterBuilder", "WriterCut", "WriterInsert", "WriterBuild"],
-                  "C01": ["BlockWriter", "Varint", "Meta", "Block", "BlockCursor", "TBlockSrc", "BuiltSrc", "NoPanic", "EndToEnd", "BlockLoad", "WriterBlock", "WriterLemmas", "WriterCut", "WriterInsert", "WriterFinish", "WriterRun", "WriterBounds", "WriterBuild"],
-                  "C02": ["BlockCursor", "Smoke", "TBlockSrc", "NoPanic", "IndexCursorLoad", "IndexCursorIter", "IndexCursor"],
-                  "C03": ["IndexCursorLoad", "IndexCursorInit", "IndexCursorIter", "IndexCursorRec", "IndexCursor", "IndexCursorSmoke"],
-                  "C16": ["IndexCursorLoad", "IndexCursorInit", "IndexCursorIter", "IndexCursorRec", "IndexCursor"], "C06": ["Merger"], "C11": ["CountWrite"], "C08": ["Sorter"], "C07": ["Sorter"]}.items():
+                  "C01": ["BlockWriter", "Varint", "Meta", "Block", "BlockCursor", "TBlockSrc", "BuiltSrc", "NoPanic", "EndToEnd", "BlockLoad", "WriterBlock", "WriterLemmas", "WriterCut", "WriterInsert", "WriterFinish", "WriterRun", "WriterBounds", "WriterBuild", "Compression", "ReaderCursorTie", "ReaderCursorTieStep"],
+                  "C02": ["BlockCursor", "Smoke", "TBlockSrc", "NoPanic", "IndexCursorLoad", "IndexCursorIter", "IndexCursor", "ReaderCursorTie", "ReaderCursorTieStep"],
+                  "C03": ["IndexCursorLoad", "IndexCursorInit", "IndexCursorIter", "IndexCursorRec", "IndexCursor", "IndexCursorSmoke", "ReaderCursorTie", "ReaderCursorTieStep"],
+                  "C16": ["IndexCursorLoad", "IndexCursorInit", "IndexCursorIter", "IndexCursorRec", "IndexCursor", "ReaderCursorTie", "ReaderCursorTieStep"], "C06": ["Merger"], "C11": ["CountWrite"], "C08": ["Sorter"], "C07": ["Sorter"]}.items():
     PROPS[_p]["srctie"] = ["Grenad.SrcTie." + m for m in _mods]
 
 
